@@ -356,7 +356,8 @@ func genFilterCases(rng *rand.Rand, tier string, emit func(*Case)) {
 		// nested arrangements (types with inner lists)
 		if rt.nested {
 			for n := 0; n <= innerN; n++ {
-				for mask := 0; mask < 1<<uint(n); mask++ {
+				// 2n bits: bit j = service j readable, bit n+j = check j readable
+				for mask := 0; mask < 1<<uint(2*n); mask++ {
 					emit(runFilterCase(rt, "inner", n, mask, rng.Int63(), policyA, "deny"))
 				}
 			}
